@@ -80,6 +80,8 @@ class StandardQTomographySimulationCheck:
                     error_message = f"The key '{item}' of the argument 'exec_check' is invalid. 'exec_check' can be used with the following keys: {check_items}"
                     raise KeyError(error_message)
 
+            # fill the defaults into a copy: the caller's dict must not be changed
+            exec_check = dict(exec_check)
             for item in check_items:
                 if item not in exec_check.keys():
                     exec_check[item] = True
